@@ -97,7 +97,12 @@ def m_amort(tier):
     return dict(alpha=["push_many", "clear"], MaxLen=0, MaxLenB=0, MaxExt=0, srcs=["raw"], sinks=["drop"], OneHandle=True,
                 PushManyN=60000, invariants=["HandleInv"])
 
+def m_elem2(tier):
+    # the whole element-wise alphabet on short vectors: cheap enough to run on EVERY element layout
+    return dict(m_elem(tier), MaxLen=2, MaxLenB=1 if tier == "quick" else 2)
+
 MODELS = {
+    "elem2": m_elem2,
     "place": m_place, "amort": m_amort,
     "lazyf": m_lazyf,
     "liar": m_liar,
@@ -129,10 +134,11 @@ def rnd(tier, configs, nvecs=2, profiles=None):
 def c01(tier):
     if tier == "quick":
         return [dict(model="elem", configs=cfgs(["heap8d", "heap3n", "heap0d", "heap8sy"], (R,)) + cfgs(["heap160"], (D,))),
-                dict(model="shift", configs=cfgs(LAYOUTS_Q, (R,))), rnd(tier, ["heap8d", "heap12d"])]
+                dict(model="shift", configs=cfgs(LAYOUTS_Q, (R,))), dict(model="elem2", configs=cfgs(LAYOUTS_T, (R,))), rnd(tier, ["heap8d", "heap12d"])]
     return [dict(model="elem", configs=cfgs(["heap8d", "heap3n", "heap160", "heap0d", "heap12d", "heap1n"], (R, D))
                  + cfgs(["heap8s", "heap8y", "heap8sy", "heap8c", "heap8cs", "heap8cy", "heap8css", "stack8sy", "fence8d"], (R,))),
-            dict(model="shift", configs=cfgs(LAYOUTS_T, (R, D))), rnd(tier, ["heap8d", "heap24d", "heap12d", "heap160", "fence8d", "heap0d"], nvecs=3)]
+            dict(model="shift", configs=cfgs(LAYOUTS_T, (R, D))), dict(model="elem2", configs=cfgs(LAYOUTS_T, (R, D))),
+            rnd(tier, ["heap8d", "heap24d", "heap12d", "heap160", "fence8d", "heap0d"], nvecs=3)]
 
 def c02(tier):
     if tier == "quick":
